@@ -424,6 +424,19 @@ func genTrees(c *genCtx) error {
 			emit(d)
 		}
 	}
+	// number leaves: one literal per abstract class of the scanner model (every conversion path and boundary
+	// of internal/fp), as an array element and as object members
+	if c.want("numbers") && c.floatLitsPath != "" {
+		lits, err := loadFloatLits(c.floatLitsPath)
+		if err != nil {
+			return err
+		}
+		for _, l := range lits {
+			emit(append(append([]byte("["), l...), ']'))
+			emit(append(append(append(append([]byte(`{"a":`), l...), `,"b":[0,`...), l...), "]}"...))
+			c.st.Extra["spec_number_class_witnesses"]++
+		}
+	}
 	if c.want("sweep") && c.statesPath != "" {
 		ss, err := loadStates(c.statesPath)
 		if err != nil {
